@@ -144,6 +144,27 @@ func stressRequests(rng *rand.Rand, nRandom int) []*Request {
 	mk("c16wkt", []*Message{M("W", F("at", 1, "", Msg(Timestamp)), F("d", 2, "", Msg("google.protobuf.Duration")), F("any", 3, "", Msg("google.protobuf.Any")),
 		F("s", 4, "", Msg("google.protobuf.Struct")), F("e", 5, "", Msg("google.protobuf.Empty")), F("w", 6, "", Msg("google.protobuf.StringValue")),
 		F("fm", 7, "", Msg("google.protobuf.FieldMask")), F("vals", 8, "", Msg("google.protobuf.Value"), Rep()), F("by", 9, "", Msg(Timestamp), MapOf("string")))}, "W", nil)
+	// buf.validate string rules whose values are hostile as YAML scalars: the empty string (const "" made
+	// protoc-gen-openapiv3 dereference nil inside libopenapi while the nodes were untagged), words and digits that a
+	// YAML resolver reads as null / boolean / number; singular, optional, repeated and map fields
+	mk("c16strconst", []*Message{M("Out",
+		F("c_empty", 1, "string", WithRules(&Rules{StrConst: Str("")})),
+		F("in_empty", 2, "string", WithRules(&Rules{StrIn: []string{""}})),
+		F("in_empty_more", 3, "string", WithRules(&Rules{StrIn: []string{"", "x", ""}})),
+		F("c_and_in_empty", 4, "string", WithRules(&Rules{StrConst: Str(""), StrIn: []string{""}, StrNotIn: []string{""}})),
+		F("c_empty_opt", 5, "string", Opt(), WithRules(&Rules{StrConst: Str("")})),
+		F("c_null", 6, "string", WithRules(&Rules{StrConst: Str("null")})),
+		F("c_tilde", 7, "string", WithRules(&Rules{StrConst: Str("~")})),
+		F("c_num", 8, "string", WithRules(&Rules{StrConst: Str("123")})),
+		F("in_words", 9, "string", WithRules(&Rules{StrIn: []string{"true", "null", "1.5", "yes", " ", "- x", "a: b", "#"}})),
+		F("c_blank", 10, "string", WithRules(&Rules{StrConst: Str(" ")})),
+		F("c_newline", 11, "string", WithRules(&Rules{StrConst: Str("a\nb")})),
+		F("r_empty", 12, "string", Rep(), WithRules(&Rules{StrConst: Str(""), StrIn: []string{""}, MinItems: U(1)})),
+		F("m_empty", 13, "string", MapOf("string"), WithRules(&Rules{StrConst: Str(""), StrIn: []string{""}, MinPairs: U(1)})))}, "Out", func(f *File, r *Request) {
+		// the same rules on the request side (request body schema and, on a GET route, query parameters)
+		f.Messages[0].Fields = append(f.Messages[0].Fields, F("tag", 2, "string", WithRules(&Rules{StrConst: Str("")})), F("pick", 3, "string", Query("pick", false), WithRules(&Rules{StrIn: []string{""}})))
+		f.Services[0].Methods = append(f.Services[0].Methods, RPC("Find", "c16strconst.v1.Req", "c16strconst.v1.Out", "GET", "/f/{id}"))
+	})
 	// annotation-driven recursions: flatten cycles and chains, flattened-oneof cycles, unwrap cycles
 	mk("c16flatcycle", []*Message{
 		M("Folder", F("name", 1, "string"), F("owner", 2, "", Msg(p("c16flatcycle", "Owner")), Flatten(true))),
